@@ -34,7 +34,7 @@ import (
 // exactly one acknowledged Stop after the senders have come to rest, none before its Start, and
 // no Stop names an id without a Start.
 
-const ruleMassEnd = "mass session end (TestMassSessionEnd, in-process, synctest bubble, RADIUS server reachable throughout): N DHCP clients (DISCOVER, REQUEST through the real handlers) or N PPPoE sessions (created in the SessionManager, marked authenticated, their Accounting-Start sent by the harness through the same client since bng has no PPPoE Start of its own; two more unauthenticated sessions get no Start) are established one after the other or all at once, then all end in the same instant by one of {DHCP: one expiry sweep after all leases lapsed, shutdown accounting, sweep of the lapsed half immediately followed by shutdown, RELEASE burst, DECLINE burst, DISCOVER burst on lapsed leases; PPPoE: TerminateAll with and without a PADT callback, TerminateByUsername of a shared user name, a PADT from every client back to back}; limiter {5/s burst 1, 20/s burst 2, 50/s burst 3, 200/s burst 1} with N = 5..20 drawn per case (N/rate <= 4 s, inside the 10 s / 5 s bounds the shutdown and teardown paths give a send) and the default limiter with N = 20 (thorough: N = 130..320, beyond its burst of 100); after the event virtual time is advanced in steps of half a limiter interval while the acknowledged Stops are counted, then by 30 s plus four times N/rate; a case whose goroutine count has not returned to what it was before the first client is inconclusive. A case is non-trivial when all N Starts were acknowledged and more sessions ended in the same instant than the limiter's burst"
+const ruleMassEnd = "mass session end (TestMassSessionEnd, in-process, synctest bubble, RADIUS server reachable throughout): N DHCP clients (DISCOVER, REQUEST through the real handlers) or N PPPoE sessions (created in the SessionManager, marked authenticated, their Accounting-Start sent by the harness through the same client since bng has no PPPoE Start of its own; two more unauthenticated sessions get no Start) are established one after the other or all at once, then all end in the same instant by one of {DHCP: one expiry sweep after all leases lapsed, shutdown accounting, sweep of the lapsed half immediately followed by shutdown, RELEASE burst, DECLINE burst, DISCOVER burst on lapsed leases; PPPoE: TerminateAll with and without a PADT callback, TerminateByUsername of a shared user name, a PADT from every client back to back}; limiter {5/s burst 1, 20/s burst 2, 50/s burst 3, 200/s burst 1} with N = 5..20 drawn per case (N/rate <= 4 s, inside the 10 s / 5 s bounds the shutdown and teardown paths give a send) and the default limiter with N = 20 (thorough: N = 130..320, beyond its burst of 100); after the event virtual time is advanced in steps of half a limiter interval while the acknowledged Stops are counted, then by 30 s plus four times N/rate; the acknowledged stream is read after the bubble has ended, i.e. after every goroutine started in it has finished (synctest.Test returns only then), and a case that does not end within 240 s of real time abandons the run as inconclusive. A case is non-trivial when all N Starts were acknowledged and more sessions ended in the same instant than the limiter's burst"
 
 const (
 	floorMassSpread = "mass_end_cases_stops_spread_over_time_by_limiter"
@@ -435,9 +435,10 @@ func judgeMass(r *massRun) {
 	key := mc.Path + "/" + mc.Event
 	comp := massComponent[key]
 	run.Eval()
+	// (the stream was read after the bubble had ended, that is after every goroutine started in it
+	// had finished: no sender can still be waiting)
 	if r.goAfter > r.goBefore {
-		run.Inconclusive("mass-end "+mc.String(), fmt.Sprintf("senders not at rest: %d goroutines before the first session, %d after the settle time", r.goBefore, r.goAfter))
-		return
+		run.Count("mass_end_cases_with_more_goroutines_after_the_settle_time_than_before (informational: runtime cleanups count)", 1)
 	}
 	_, burst := mc.rate()
 	cls := "mass-end/" + key + "/" + mc.limiterClass()
